@@ -57,7 +57,11 @@ def mc_jobs(ctx):
         for kind in KINDS:
             for blocking in (False, True):
                 ok.append(kconsts(kind, Blocking=blocking, MaxFaults=2 if kind == "kafka" else 1))
-                ok.append(kconsts(kind, Blocking=blocking, BufSize=1, FlushMax=3 if kind != "pubsub" else 4, MaxItems=5, MaxFaults=2))
+                if kind != "pubsub":
+                    ok.append(kconsts(kind, Blocking=blocking, BufSize=1, FlushMax=3, MaxItems=5, MaxFaults=2))
+                else:       # (two sizes: the liveness graph of 5 items is ~10x; 5 items safety only)
+                    ok.append(kconsts(kind, Blocking=blocking, BufSize=1, FlushMax=4, MaxItems=4, MaxFaults=2))
+                    ok.append(kconsts(kind, Blocking=blocking, BufSize=1, FlushMax=4, MaxItems=5, MaxFaults=1, live=""))
                 ok.append(kconsts(kind, Blocking=blocking, BufSize=3, FlushMax=1 if kind != "pubsub" else 2, MaxItems=4, MaxBad=2))
                 # no timer (flushMaxWait longer than the execution): threshold and final flush only
                 ok.append(kconsts(kind, TimerOn=False, Blocking=blocking, MaxItems=5, live="LoopExits Unparks"))
@@ -206,11 +210,12 @@ def family(rng, kind, fam):
         n = m * per_batch(sc) + (1 if fam == "onemore" else 0) if kind != "pubsub" else rng.randint(3, 11)
         if not sc["blocking"]:
             sc["bufsize"] = n + 2
+        if kind == "pubsub":
+            sc["format"] = "plain"
         sc["steps"] = d_steps(rng, sc, n, 0.1) + [dict(op="i")]
         if kind == "pubsub":
             # the byte threshold is met exactly by the m-th item (it must go into the next batch) / missed by one
             # byte (it still fits)
-            sc["format"] = "plain"
             m = rng.randint(2, min(n, 4))
             sc["fmax"] = sum(st["sz"] for st in sc["steps"][:m]) + (1 if fam == "onemore" else 0)
         if rng.random() < 0.5:
@@ -359,6 +364,8 @@ def gen_model_scenarios(ctx, pool, per):
 def run_driver(ctx, scens):
     for k, s in enumerate(scens):
         s["k"] = k
+        if s["kind"] == "pubsub" and s["format"] != "pickle" and any(st.get("bad") for st in s["steps"]):
+            raise Machinery("scenario %d: the plain format has no unparsable lines" % k)
     sf = ctx.write_ndjson("xb_scen.ndjson", scens)
     tf = os.path.join(ctx.out, "xb_trace.ndjson")
     res = ctx.go_test("batch", run="^TestBatch$", timeout=ctx.pick(600, 2400), expect_ok=False,
